@@ -151,7 +151,8 @@ def h03a_shards(tier):
     for o in ops:
         for e in (False, True):
             for vary in ("id", "flags", "rcode", "ttl") + (("version", "eflags", "payload", "option") if e else ()):
-                out.append({"opcode": o, "edns": e, "vary": vary, "_timeout": 900, "_path_timeout": 120})
+                # (the 16-bit flags word through set_rcode / EDNS is one path with 100-250 s of solver time)
+                out.append({"opcode": o, "edns": e, "vary": vary, "_timeout": 1500 if vary == "flags" else 900, "_path_timeout": 400 if vary == "flags" else 120})
     return out
 
 
